@@ -1,44 +1,8 @@
-(** C10 — plain STORE (sequence numbers), invariant, histories. *)
+(** C10 — steps, the UNIQUE invariant, histories. *)
 From Coq Require Import String Ascii List Bool Arith ZArith Lia.
 From Raven Require Import Base.GoStr Model.Flags Spec.FlagSet Proof.Flags Model.FlagStore Spec.FlagHistory Proof.FlagStore.
 Import ListNotations.
 Local Open Scope Z_scope.
-
-(** ---------- ORDER BY uid commutes with a uid-preserving row map ---------- *)
-
-Lemma ins_uid_map (g : link -> link) x l :
-  (forall y, lk_uid (g y) = lk_uid y) -> ins_uid (g x) (map g l) = map g (ins_uid x l).
-Proof.
-  intros H. induction l as [|y l IH]; simpl; [reflexivity|].
-  rewrite !H. destruct (lk_uid x <=? lk_uid y); simpl; [reflexivity | now rewrite IH].
-Qed.
-
-Lemma sort_uid_map (g : link -> link) l :
-  (forall y, lk_uid (g y) = lk_uid y) -> sort_uid (map g l) = map g (sort_uid l).
-Proof.
-  intros H. induction l as [|x l IH]; simpl; [reflexivity|].
-  unfold sort_uid in *. simpl. rewrite IH. now apply ins_uid_map.
-Qed.
-
-Lemma filter_map_pres {A} (p : A -> bool) (g : A -> A) l :
-  (forall x, p (g x) = p x) -> filter p (map g l) = map g (filter p l).
-Proof.
-  intros H. induction l as [|x l IH]; simpl; [reflexivity|]. rewrite H. destruct (p x); simpl; now rewrite IH.
-Qed.
-
-Lemma mbox_links_upd ls mb T item new mb' :
-  mbox_links (map (upd mb T item new) ls) mb' = map (upd mb T item new) (mbox_links ls mb').
-Proof.
-  unfold mbox_links. rewrite filter_map_pres.
-  - apply sort_uid_map. intros y. apply upd_uid_.
-  - intros x. unfold in_mbox. now rewrite upd_mbox_.
-Qed.
-
-Lemma nth_link_upd ls mb T item new mb' n :
-  nth_link (map (upd mb T item new) ls) mb' n = option_map (upd mb T item new) (nth_link ls mb' n).
-Proof.
-  unfold nth_link. destruct (n <? 1); [reflexivity|]. rewrite mbox_links_upd. apply nth_error_map.
-Qed.
 
 Lemma ins_uid_In x l y : In y (ins_uid x l) <-> y = x \/ In y l.
 Proof.
@@ -60,127 +24,17 @@ Proof.
   unfold nth_link. destruct (n <? 1); [discriminate|]. intros H. apply nth_error_In in H. now apply mbox_links_In.
 Qed.
 
-(** ---------- plain STORE ---------- *)
-
-Definition targets1 (ls : list link) (mb n : Z) : list Z :=
-  match nth_link ls mb n with Some l => [lk_uid l] | None => [] end.
-
-Lemma has_twin_false ls mb l0 : has_twin ls mb l0 = false ->
-  forall l, In l ls -> lk_msg l = lk_msg l0 -> lk_mbox l = mb -> lk_uid l = lk_uid l0.
-Proof.
-  unfold has_twin. intros H l Hl Hm Hb.
-  rewrite <- not_true_iff_false, existsb_exists in H.
-  destruct (Z.eq_dec (lk_uid l) (lk_uid l0)) as [|Hn]; [assumption|]. exfalso. apply H.
-  exists l. split; [assumption|]. unfold in_mbox.
-  rewrite !andb_true_iff, negb_true_iff, !Z.eqb_eq, Z.eqb_neq. auto.
-Qed.
-
-Lemma store_seq_one_spec e ls mb item new n :
-  uniq_keys ls ->
-  (forall l0, nth_link ls mb n = Some l0 -> junk_trigger e mb item new l0 = None /\ has_twin ls mb l0 = false) ->
-  store_seq_one e mb item new ls n = spec_update ls mb (targets1 ls mb n) item new.
-Proof.
-  intros Hu Ht. unfold store_seq_one, targets1. destruct (nth_link ls mb n) as [l0|] eqn:En.
-  - destruct (Ht l0 eq_refl) as [Hj Hw]. rewrite (no_trigger_row _ _ _ _ _ _ _ Hj).
-    destruct (nth_link_In _ _ _ _ En) as [Hin Hmb].
-    unfold upd_msg. rewrite spec_update_upd. apply map_ext_in. intros l Hl.
-    unfold upd, in_mbox, memZ. simpl. rewrite orb_false_r.
-    destruct ((lk_msg l =? lk_msg l0) && (lk_mbox l =? mb)) eqn:E.
-    + apply andb_true_iff in E. destruct E as [E1 E2]. apply Z.eqb_eq in E1, E2.
-      pose proof (has_twin_false _ _ _ Hw l Hl E1 E2) as Hq.
-      assert (l = l0) by (apply (uniq_inj ls Hu); auto; unfold lkey; congruence). subst l.
-      now rewrite E2, !Z.eqb_refl.
-    + destruct ((lk_mbox l =? mb) && (lk_uid l =? lk_uid l0)) eqn:E'; [|reflexivity].
-      apply andb_true_iff in E'. destruct E' as [E1 E2]. apply Z.eqb_eq in E1, E2.
-      assert (l = l0) by (apply (uniq_inj ls Hu); auto; unfold lkey; congruence). subst l.
-      rewrite Z.eqb_refl, E1, Z.eqb_refl in E. discriminate.
-  - now rewrite spec_update_nil.
-Qed.
-
-Definition targets (ls : list link) (mb : Z) (ns : list Z) : list Z := flat_map (targets1 ls mb) ns.
-
-Lemma targets1_upd ls mb T item new n :
-  targets1 (map (upd mb T item new) ls) mb n = targets1 ls mb n.
-Proof.
-  unfold targets1. rewrite nth_link_upd. destruct (nth_link ls mb n); simpl; [now rewrite upd_uid_ | reflexivity].
-Qed.
-
-Lemma existsb_map_l {A B} (f : A -> B) p l : existsb p (map f l) = existsb (fun x => p (f x)) l.
-Proof. induction l as [|x l IH]; simpl; [reflexivity | now rewrite IH]. Qed.
-Lemma existsb_ext_l {A} (p q : A -> bool) l : (forall x, p x = q x) -> existsb p l = existsb q l.
-Proof. intros H. induction l as [|x l IH]; simpl; [reflexivity | now rewrite H, IH]. Qed.
-
-Lemma has_twin_upd ls mb T item new l :
-  has_twin (map (upd mb T item new) ls) mb (upd mb T item new l) = has_twin ls mb l.
-Proof.
-  unfold has_twin. rewrite existsb_map_l. apply existsb_ext_l. intros l'.
-  unfold in_mbox. now rewrite !upd_msg_, !upd_uid_, !upd_mbox_.
-Qed.
-
-Lemma store_seq_fold e mb item new : forall ns ls,
-  uniq_keys ls ->
-  (forall n l0, In n ns -> nth_link ls mb n = Some l0 ->
-     junk_trigger e mb item new l0 = None /\ has_twin ls mb l0 = false) ->
-  fold_left (store_seq_one e mb item new) ns ls = spec_update ls mb (targets ls mb ns) item new.
-Proof.
-  induction ns as [|n ns IH]; intros ls Hu Ht; simpl.
-  - now rewrite spec_update_nil.
-  - rewrite store_seq_one_spec; auto.
-    2:{ intros l0 Hf. apply (Ht n l0); auto. now left. }
-    rewrite IH.
-    + rewrite spec_update_compose. f_equal. f_equal. unfold targets.
-      apply flat_map_ext. intros a. rewrite spec_update_upd. apply targets1_upd.
-    + unfold uniq_keys. rewrite spec_update_upd, map_lkey_upd. exact Hu.
-    + intros n' l0' Hin Hf. rewrite spec_update_upd in *. rewrite nth_link_upd in Hf.
-      destruct (nth_link ls mb n') as [l0|] eqn:Ef; [|discriminate]. simpl in Hf. injection Hf as <-.
-      destruct (Ht n' l0 (or_intror Hin) Ef) as [Hj Hw]. split.
-      * unfold upd. destruct (in_mbox mb l0 && memZ (lk_uid l0) (targets1 ls mb n)); [apply junk_trigger_after | assumption].
-      * now rewrite has_twin_upd.
-Qed.
-
-Lemma seq_targets_eq ls mb q : seq_targets ls mb q = targets ls mb (expand_seq ls mb q).
-Proof. reflexivity. Qed.
-
-Lemma rows_of_targets ls mb ns n l0 : uniq_keys ls ->
-  In n ns -> nth_link ls mb n = Some l0 -> In l0 (rows_of_uids ls mb (targets ls mb ns)).
-Proof.
-  intros Hu Hn Hf. destruct (nth_link_In _ _ _ _ Hf) as [Hin Hmb].
-  apply (rows_of_uids_In ls mb _ (lk_uid l0)).
-  - unfold targets. apply in_flat_map. exists n. split; [assumption|]. unfold targets1. rewrite Hf. now left.
-  - unfold find_key. destruct (find (has_key mb (lk_uid l0)) ls) as [l1|] eqn:E.
-    + apply find_some in E. destruct E as [H1 H2]. f_equal. apply (uniq_inj ls Hu); auto.
-      apply has_key_lkey in H2. rewrite H2. unfold lkey. now rewrite Hmb.
-    + exfalso. pose proof (find_none _ _ E l0 Hin) as Hx. unfold has_key in Hx.
-      now rewrite Hmb, !Z.eqb_refl in Hx.
-Qed.
-
-Theorem store_seq_exact e ls mb q item new :
-  uniq_keys ls ->
-  junk_class e mb item new (rows_of_uids ls mb (seq_targets ls mb q)) true = None ->
-  existsb (has_twin ls mb) (rows_of_uids ls mb (seq_targets ls mb q)) = false ->
-  store_seq e ls mb q item new = spec_update ls mb (seq_targets ls mb q) item new.
-Proof.
-  intros Hu Hc Hw. unfold store_seq. rewrite seq_targets_eq in *. apply store_seq_fold; [assumption|].
-  intros n l0 Hin Hf. pose proof (rows_of_targets _ _ _ _ _ Hu Hin Hf) as Hr. split.
-  - apply (junk_class_none _ _ _ _ _ _ Hc). assumption.
-  - rewrite <- not_true_iff_false, existsb_exists in Hw.
-    destruct (has_twin ls mb l0) eqn:E; [|reflexivity]. exfalso. apply Hw. now exists l0.
-Qed.
-
 (** ---------- one step, outside the classes, is the reference step ---------- *)
 
 Theorem step_exact e s o :
   uniq_keys (links s) -> classify e s o = None -> step e s o = spec_step e s o.
 Proof.
   intros Hu Hc. destruct o as [ro si mb q item new|ro si mb q item new|mb q dest|mb fl|ro mb]; simpl in *.
-  - destruct ro; [discriminate|].
-    destruct (junk_class e mb item new _ true) eqn:Ej; [discriminate|].
-    destruct (existsb (has_twin (links s) mb) _) eqn:Ew; [discriminate|].
-    now rewrite store_seq_exact.
-  - destruct ro; [discriminate|]. now rewrite store_uid_exact.
+  - destruct ro; [reflexivity|]. now rewrite store_seq_exact.
+  - destruct ro; [reflexivity|]. now rewrite store_uid_exact.
   - reflexivity.
   - reflexivity.
-  - destruct ro; [discriminate | reflexivity].
+  - destruct ro; reflexivity.
 Qed.
 
 (** ---------- UNIQUE(mailbox_id, uid) is an invariant of every operation ---------- *)
@@ -205,21 +59,24 @@ Qed.
 Lemma uniq_map_pres (g : link -> link) ls : (forall l, lkey (g l) = lkey l) -> uniq_keys ls -> uniq_keys (map g ls).
 Proof. intros H Hu. unfold uniq_keys. rewrite map_map. erewrite map_ext; [exact Hu|]. exact H. Qed.
 
-Lemma uniq_move ls msg src dest fl ls' : uniq_keys ls -> move ls msg src dest fl = Some ls' -> uniq_keys ls'.
+Lemma uniq_move ls msg src u dest fl ls' : uniq_keys ls -> move ls msg src u dest fl = Some ls' -> uniq_keys ls'.
 Proof.
-  unfold move. destruct (src =? dest); [now intros Hu [= <-]|].
+  unfold move. destruct (src =? dest); [discriminate|].
   destruct (insert ls _) as [l1|] eqn:E; [|discriminate]. intros Hu [= <-].
   apply uniq_filter. eapply uniq_insert; eauto.
 Qed.
 
-Lemma uniq_store_row e ls mb l0 item new stmt :
-  (forall ls fl, uniq_keys ls -> uniq_keys (stmt ls fl)) -> uniq_keys ls -> uniq_keys (store_row e ls mb l0 item new stmt).
+Lemma uniq_upd_uid mb u ls fl : uniq_keys ls -> uniq_keys (upd_uid mb u ls fl).
+Proof. intros H. unfold upd_uid. apply uniq_map_pres; [|assumption]. intros l0. now destruct (has_key _ _ _). Qed.
+
+Lemma uniq_store_row e ls mb l0 item new :
+  uniq_keys ls -> uniq_keys (store_row e ls mb l0 item new).
 Proof.
-  intros Hs Hu. unfold store_row. cbv zeta.
+  intros Hu. unfold store_row. cbv zeta.
   destruct (junk_added _ _).
-  - destruct (move _ _ _ _ _) eqn:E; [eapply uniq_move; eauto | auto].
-  - destruct (nonjunk_added _ _); [|auto].
-    destruct (move _ _ _ _ _) eqn:E; [eapply uniq_move; eauto | auto].
+  - destruct (move _ _ _ _ _ _) eqn:E; [eapply uniq_move; eauto | now apply uniq_upd_uid].
+  - destruct (nonjunk_added _ _); [|now apply uniq_upd_uid].
+    destruct (move _ _ _ _ _ _) eqn:E; [eapply uniq_move; eauto | now apply uniq_upd_uid].
 Qed.
 
 Lemma uniq_fold {A} (f : list link -> A -> list link) xs :
@@ -236,15 +93,13 @@ Qed.
 Theorem uniq_step e s o : uniq_keys (links s) -> uniq_keys (links (step e s o)).
 Proof.
   intros Hu. destruct o as [ro si mb q item new|ro si mb q item new|mb q dest|mb fl|ro mb]; simpl.
-  - unfold store_seq. apply uniq_fold; [|assumption]. intros ls n H. unfold store_seq_one.
-    destruct (nth_link ls mb n); [|assumption]. apply uniq_store_row; [|assumption].
-    intros ls0 fl0 H0. unfold upd_msg. apply uniq_map_pres; [|assumption]. intros l0. now destruct (_ && _).
-  - unfold store_uid. apply uniq_fold; [|assumption]. intros ls n H. unfold store_uid_one.
-    destruct (find_key ls mb n); [|assumption]. apply uniq_store_row; [|assumption].
-    intros ls0 fl0 H0. unfold upd_uid. apply uniq_map_pres; [|assumption]. intros l0. now destruct (has_key _ _ _).
+  - destruct ro; [assumption|]. simpl. unfold store_seq. apply uniq_fold; [|assumption]. intros ls n H.
+    unfold store_uid_one. destruct (find_key ls mb n); [now apply uniq_store_row | assumption].
+  - destruct ro; [assumption|]. simpl. unfold store_uid. apply uniq_fold; [|assumption]. intros ls n H.
+    unfold store_uid_one. destruct (find_key ls mb n); [now apply uniq_store_row | assumption].
   - unfold copy_uid. destruct (copy_loop _ _ _ _ _) eqn:E; [|assumption]. eapply uniq_copy_loop; eauto.
   - unfold append. destruct (insert _ _) eqn:E; simpl; [eapply uniq_insert; eauto | assumption].
-  - unfold expunge. now apply uniq_filter.
+  - destruct ro; [assumption|]. simpl. unfold expunge. now apply uniq_filter.
 Qed.
 
 (** ---------- histories ---------- *)
